@@ -261,6 +261,111 @@ theorem attempts_range (fuel attempt : Nat) (b : Request.Builder) (w : World)
 theorem requests_per_check_range (b : Request.Builder) (w : World) :
     1 ≤ (attemptLoop 3 1 b w).2.1 ∧ (attemptLoop 3 1 b w).2.1 ≤ 3 := attempts_range 3 1 b w rfl (by omega)
 
+/-! ### The metrics account for exactly the attempts made -/
+
+/-- An attempt of an update check: the request went on the wire, or could not be built. -/
+def isAttempt : Action → Bool
+  | .http r _ => r.kind == .updateCheck
+  | .buildError k _ => k == .updateCheck
+  | _ => false
+
+def isRT : Action → Bool
+  | .metric (.responseTime _ _) => true
+  | _ => false
+
+def countA (p : Action → Bool) (w : World) : Nat := (w.trace.filter p).length
+
+theorem countA_of_adds (p : Action → Bool) {P : Action → Prop} {w w' : World} (h : Adds P w w')
+    (hp : ∀ a, P a → p a = false) : countA p w' = countA p w := by
+  obtain ⟨d, e, q⟩ := h
+  unfold countA
+  rw [e, List.filter_append]
+  have : d.filter p = [] := by
+    rw [List.filter_eq_nil_iff]
+    intro a ha; simp [hp a (q a ha)]
+  simp [this]
+
+theorem countA_emit (p : Action → Bool) (a : Action) (w : World) : countA p (emit a w) = countA p w + (if p a then 1 else 0) := by
+  unfold countA emit
+  simp only [List.filter_cons]
+  split <;> simp [Nat.add_comm]
+
+/-- One call of the request function for an update check is exactly one attempt and emits no
+response-time metric itself. -/
+theorem omahaRequest_uc_counts (b : Request.Builder) (w : World) :
+    countA isAttempt (omahaRequest .updateCheck b w).2 = countA isAttempt w + 1 ∧
+    countA isRT (omahaRequest .updateCheck b w).2 = countA isRT w := by
+  unfold omahaRequest
+  split
+  · rw [countA_emit, countA_emit]; simp [isAttempt, isRT]
+  · simp only
+    have hA := countA_of_adds isAttempt (adds_handleOutcome (sendRequest .updateCheck b w).1 (sendRequest .updateCheck b w).2)
+      (fun a h => by rcases h with h | h <;> cases a <;> simp_all [isEvent, isStorage, isAttempt])
+    have hR := countA_of_adds isRT (adds_handleOutcome (sendRequest .updateCheck b w).1 (sendRequest .updateCheck b w).2)
+      (fun a h => by rcases h with h | h <;> cases a <;> simp_all [isEvent, isStorage, isRT])
+    rw [hA, hR]
+    obtain ⟨req, hk, ht⟩ := sendRequest_trace .updateCheck b w
+    unfold countA
+    rw [ht, List.filter_cons, List.filter_cons]
+    simp [isAttempt, isRT, hk]
+
+/-- **requests_per_check_counts_attempts.** The attempt number the loop returns (reported as
+`RequestsPerCheck.count`) is exactly the number of attempts made — requests sent plus requests that
+could not be built — and the loop emits at most one response-time metric per attempt (exactly one
+whenever the monotonic clock has not gone backwards during the attempt: the `if` in the code). -/
+theorem attemptLoop_accounting (fuel attempt : Nat) (b : Request.Builder) (w : World) (h : attempt + fuel = 4) (hf : 1 ≤ fuel) :
+    countA isAttempt (attemptLoop fuel attempt b w).2.2 + attempt = countA isAttempt w + (attemptLoop fuel attempt b w).2.1 + 1 ∧
+    countA isRT (attemptLoop fuel attempt b w).2.2 + attempt ≤ countA isRT w + (attemptLoop fuel attempt b w).2.1 + 1 := by
+  induction fuel generalizing attempt b w with
+  | zero => omega
+  | succ fuel ih =>
+    unfold attemptLoop
+    simp only
+    generalize hr : omahaRequest .updateCheck (withRequestId b w).1 (withRequestId b w).2 = r
+    have hreq := omahaRequest_uc_counts (withRequestId b w).1 (withRequestId b w).2
+    rw [hr] at hreq
+    have hw0 : countA isAttempt (withRequestId b w).2 = countA isAttempt w ∧ countA isRT (withRequestId b w).2 = countA isRT w := ⟨rfl, rfl⟩
+    rw [hw0.1, hw0.2] at hreq
+    generalize hm : (if w.clock.mono ≤ r.2.clock.mono then metric (.responseTime (r.2.clock.mono - w.clock.mono).toNat (isOk r.1)) r.2 else r.2) = wm
+    have hwmA : countA isAttempt wm = countA isAttempt r.2 := by
+      rw [← hm]; split
+      · unfold metric; rw [countA_emit]; simp [isAttempt]
+      · rfl
+    have hwmR : countA isRT wm ≤ countA isRT r.2 + 1 := by
+      rw [← hm]; split
+      · unfold metric; rw [countA_emit]; simp [isRT]
+      · omega
+    cases hres : r.1 with
+    | ok body => simp only; omega
+    | error f =>
+      simp only
+      split
+      · unfold yieldEv
+        rw [countA_emit, countA_emit]
+        simp [isAttempt, isRT]
+        obtain ⟨hw1, hw2⟩ := hw0
+        omega
+      · cases fuel with
+        | zero =>
+          rename_i hg
+          exact absurd (giveUp_third f attempt _ (by omega)) hg
+        | succ fuel' =>
+          have hb : countA isAttempt (backoff attempt wm) = countA isAttempt wm ∧ countA isRT (backoff attempt wm) = countA isRT wm := by
+            unfold countA
+            rw [backoff_trace]
+            simp [List.filter_cons, isAttempt, isRT]
+          have := ih (attempt + 1) (withRequestId b w).1 (backoff attempt wm) (by omega) (by omega)
+          rw [hb.1, hb.2] at this
+          omega
+
+/-- For a whole check the loop is entered with `attempt = 1`: `count` attempts, at most `count`
+response-time metrics. -/
+theorem requests_per_check_counts_attempts (b : Request.Builder) (w : World) :
+    countA isAttempt (attemptLoop 3 1 b w).2.2 = countA isAttempt w + (attemptLoop 3 1 b w).2.1 ∧
+    countA isRT (attemptLoop 3 1 b w).2.2 ≤ countA isRT w + (attemptLoop 3 1 b w).2.1 := by
+  have := attemptLoop_accounting 3 1 b w rfl (by omega)
+  omega
+
 /-! ### Non-vacuity -/
 
 example : giveUp ⟨.transport, false⟩ 1 none = false ∧ giveUp ⟨.transport, true⟩ 1 none = true ∧
